@@ -67,7 +67,7 @@ def check_l2(run, cases, results, relation="GraphOf.graph_of_project = runner.bu
         if not r or not r.get("graph"):
             continue
         try:
-            terms.append("(%s,\n %s,\n %s)" % (projcoq.c_project(c["project"]), lib.c_bool(c["options"].get("force_disabled")),
+            terms.append("(%s,\n %s,\n %s)" % (projcoq.c_project(c.get("scheduled_project") or c["project"]), lib.c_bool(c["options"].get("force_disabled")),
                                               l1.c_graph(r["graph"])))
         except l1.Unmodelled as e:
             run.tie_broken(relation, case={"id": c["id"]}, detail="unmodelled: %s" % e)
@@ -154,7 +154,7 @@ def check_l3(run, cases, results, relation="TaskSem.task_sem = atoms and result 
             L = l3.L3(r["graph"], r["trace"])
             moves, _ = L.L1.moves(r["trace"])
             obs = L.observations(l3.modes_from_moves(moves))
-            terms.append("(%s,\n %s,\n %s,\n [%s])" % (projcoq.c_project(c["project"]), lib.c_bool(c["options"].get("force_disabled")),
+            terms.append("(%s,\n %s,\n %s,\n [%s])" % (projcoq.c_project(c.get("scheduled_project") or c["project"]), lib.c_bool(c["options"].get("force_disabled")),
                                                       l1.c_graph(r["graph"]), ";\n  ".join(obs)))
         except (l1.Unmodelled, KeyError) as e:
             run.tie_broken(relation, case={"id": c["id"], "project": c["project"], "options": c["options"]},
